@@ -66,7 +66,7 @@ func (f *Subtract) Call(s *slip.Scope, args slip.List, depth int) (dif slip.Obje
 				case slip.Complex:
 					dif = slip.Complex(-complex128(td))
 				}
-				return
+				return reduceNumber(dif)
 			}
 			continue
 		}
@@ -87,7 +87,7 @@ func (f *Subtract) Call(s *slip.Scope, args slip.List, depth int) (dif slip.Obje
 		case *slip.Bignum:
 			dif = (*slip.Bignum)(((*big.Int)(dif.(*slip.Bignum))).Sub((*big.Int)(dif.(*slip.Bignum)), (*big.Int)(ta)))
 		case *slip.Ratio:
-			dif = (*slip.Ratio)(((*big.Rat)(dif.(*slip.Ratio))).Sub((*big.Rat)(dif.(*slip.Ratio)), (*big.Rat)(ta)))
+			dif = ratReduce(((*big.Rat)(dif.(*slip.Ratio))).Sub((*big.Rat)(dif.(*slip.Ratio)), (*big.Rat)(ta)))
 		case slip.Complex:
 			dif = slip.Complex(complex128(dif.(slip.Complex)) - complex128(ta))
 		}
